@@ -90,8 +90,11 @@ def shell_text(script, uname, tag, mdir, to_file=True, letter=None, extra=False,
     write = f"printf %s {uname}:{letter or tag}:n$n" + (" > res.txt" if to_file else "")
     # K / G: the first command produces the result and is then killed by SIGKILL / SIGSEGV (the runner sees a
     # NEGATIVE return code); Z: killed by SIGKILL before producing anything
-    first = {"S": write, "F": "exit 3", "O": ":", "W": write, "K": write + "; kill -KILL $$", "G": write + "; kill -SEGV $$", "Z": "kill -KILL $$"}
-    second = {"S": ":", "F": ":", "O": ":", "W": "exit 3", "K": ":", "G": ":", "Z": ":"}
+    # E: succeeds and leaves an EMPTY result (a 0-byte return file); Y: succeeds with a one-byte result, no newline
+    empty = ": > res.txt" if to_file else ":"
+    onebyte = "printf x" + (" > res.txt" if to_file else "")
+    first = {"S": write, "F": "exit 3", "O": ":", "W": write, "K": write + "; kill -KILL $$", "G": write + "; kill -SEGV $$", "Z": "kill -KILL $$", "E": empty, "Y": onebyte}
+    second = {"S": ":", "F": ":", "O": ":", "W": "exit 3", "K": ":", "G": ":", "Z": ":", "E": ":", "Y": ":"}
     if not script or any(c not in first for c in script):
         raise HarnessError(f"unknown script {script}")
 
@@ -290,7 +293,7 @@ class Model:
 def script_outcome(script, n):
     """(all commands succeeded, result produced) of execution number n (1-based)."""
     c = script[min(n, len(script)) - 1]
-    return {"S": (True, True), "F": (False, False), "O": (True, False), "W": (False, True), "K": (False, True), "G": (False, True), "Z": (False, False)}[c]
+    return {"S": (True, True), "F": (False, False), "O": (True, False), "W": (False, True), "K": (False, True), "G": (False, True), "Z": (False, False), "E": (True, True), "Y": (True, True)}[c]
 
 
 def script_letter(script, n):
@@ -646,7 +649,9 @@ class World:
                     m.attempts[un] = n
                     cok, hasfile = script_outcome(self.plan[u], n)
                     letter = m.tag if (not self.vary or self.vary in VARY_VISIBLE) else TAGS[0]
-                    rec = (m.tag, cok, hasfile, f"{un}:{letter}:n{n}".encode() if hasfile else None)
+                    sl = script_letter(self.plan[u], n)
+                    payload = b"" if sl == "E" else b"x" if sl == "Y" else f"{un}:{letter}:n{n}".encode()
+                    rec = (m.tag, cok, hasfile, payload if hasfile else None)
                     result[un] = rec
                     if script_letter(self.plan[u], n) in "KGZ":
                         signalled.add(k)
@@ -1010,6 +1015,15 @@ def option_configs(thorough):
         for nw in (1, 2):
             for c in (2, 5):
                 out += mk({name: ALT_OPTS[name][0], "n_workers": nw}, c)
+    # every keyword that should only change what is reported / where scratch files live, alone, for single and
+    # vectorised jobs: destination and executions must be those of the default run
+    levels = ["debug", "info", "error", "critical", "DEBUG"]
+    for kind, plan in (("single", ("S",)), ("vector", ("S", "S"))):
+        for lv in levels:
+            out += mk({"log_level": lv}, 2, plan=plan, kind=kind)
+        for name in ("progress", "verbose", "scratch", "cache", "shared", "args"):
+            out += mk({name: ALT_OPTS[name][0]}, 2, plan=plan, kind=kind)
+        out += mk({"log_level": "debug", "progress": True, "verbose": True}, 3, plan=plan, kind=kind)
     # vectorised: sub-jobs outnumber the workers as well
     for progress in (False, True):
         for nw in (2, None):
@@ -1073,6 +1087,7 @@ def run(ctx):
         "every run starts with leftovers of earlier runs in place: the .inp/.out files of all earlier runs of the history plus stray <unit>.err / .out~ / .out.tmp / .inp.bak files and an abandoned scratch directory holding a result file",
         "what a FAILED execution leaves in the cache (its own output, nothing, or the previous output untouched) is not constrained; the model follows what is found there for later reuse decisions - the RESULT of the run is always that of the run's own execution: a failed item is absent from the destination, never served from an earlier run's output",
         "a cached output is reused iff the current JobInput equals the one it was computed from in EVERY field (jid, commands, files, return_files, envars, timeout: the unchanged code hashes attrs.asdict of the whole input; no field is deliberately ignored)",
+        "a return file of 0 bytes (or 1 byte, no newline) left by a command that succeeded is a result like any other: it is returned, post-processed and stored, and its cached output is reused",
         "a command terminated by a signal has failed like one that exits non-zero (the runner reports a negative return code): the item is not stored, whatever it wrote before, and is executed again in the next run",
         "jobmap keywords: every keyword of jobmap's signature is exercised (progress, verbose, n_workers 1/2/default, scratch_dir / cache_dir / shared_dir given or not, log_level, args); the scripted commands of these histories sleep 50 ms so that jobmap's submit loop has finished before a queued job starts; every submitted item must be executed exactly once. The in-process runner is serialised by a lock when n_workers > 1 (it changes the process cwd); thread start order and what each task runs remain jobmap's",
         "n_workers=1 in every history outside the option histories; the destination is a plain Collection[bytes] on the Ukv backend, the sources are a MoleculeLibrary / ConformerLibrary",
@@ -1129,6 +1144,9 @@ def run(ctx):
             parts += [(2, T, False, c) for c in chunk(configs("single", k2, [("S",), ("F",)], foreign_opts=NF, prepop=False, vary=v), 2)]
             if v in ("jid", "envars-value", "timeout"):
                 parts += [(2, T, False, configs("vector", k2, [("S", "S")], foreign_opts=NF, prepop=False, vary=v))]
+        # result sizes: a command that succeeds and legitimately leaves a 0-byte / 1-byte return file
+        parts += [(2, T, False, c) for c in chunk(configs("single", k2, [("E",), ("Y",), ("S",)], foreign_opts=NF), nproc)]
+        parts += [(2, T, False, c) for c in chunk(configs("vector", k2, [("E", "S"), ("S", "Y"), ("E", "E")], foreign_opts=NF, prepop=False), nproc)]
         # commands terminated by a signal (negative return code), after / before producing the result
         parts += [(2, T, False, c) for c in chunk(configs("single", k2, [("K",), ("G",), ("Z",)], foreign_opts=NF), nproc)]
         parts += [(2, T, False, c) for c in chunk(configs("vector", k2, [("K", "S"), ("S", "G"), ("Z", "S")], foreign_opts=NF, prepop=False), nproc)]
@@ -1168,6 +1186,11 @@ def run(ctx):
         parts += [(2, T, False, x) for x in chunk(configs("single", k2, [("SF",), ("SW",)], strict=False, foreign_opts=NF), nproc)]
         parts += [(2, T, True, x) for x in chunk(configs("single", k2, [("SF",)], foreign_opts=NF, prepop=False), 4)]
         ctx.bound["scripts"] = "per-attempt outcome strings over {S,F,O,W}: S F FS O W everywhere; SF SO SW SFS SSF FSF single 1..3 runs; vectorised SF/SO/SW/FS mixes 1..2 runs; real runner SF"
+        # result sizes 0 / 1 byte
+        parts += [(3, T, False, x) for x in chunk(configs("single", k2, [("E",), ("Y",), ("FE",), ("ES",)], foreign_opts=NF), nproc * 2)]
+        parts += [(2, CK[:2], False, x) for x in chunk(configs("vector", k2, [("E", "S"), ("S", "Y"), ("E", "E"), ("E", "F")], foreign_opts=NF), nproc * 2)]
+        parts += [(2, T, False, x) for x in chunk(configs("single", k2, [("E",), ("Y",)], strict=False, foreign_opts=NF, prepop=False), nproc)]
+        parts += [(2, T, True, x) for x in chunk(configs("single", k2, [("E",)], foreign_opts=NF, prepop=False), 4)]
         # commands terminated by a signal
         sig = [("K",), ("G",), ("Z",), ("SK",), ("KS",)]
         parts += [(3, T, False, x) for x in chunk(configs("single", k2, {"k0": sig, "k1": [("S",), ("K",)]}, foreign_opts=NF), nproc * 2)]
